@@ -396,3 +396,76 @@ def _registry_alias_mutations(P: Program, rep: Report, rule: str, attr: str) -> 
                 tp |= {k.arg for k in n.keywords if k.arg in params and from_registry(k.value) and not is_copy(k.value)}
                 if tp and n.func.attr not in DEFINITION_HANDLERS:
                     work.append((n.func.attr, frozenset(tp)))
+
+
+# ---------------------------------------------------------------------------------------------------------------
+# RT.5  component-level expressions are translated inside the clause scope of their dataset
+COMPONENT_EXPR_SOURCES = {"children", "having_clause", "grouping"}
+SCOPE_EXEMPT: Dict[Tuple[str, str], str] = {
+    ("visit_RegularAggregation_sub", "child.right"): "the fixed value of a sub clause is a SCALAR expression: it must not be resolved against the dataset's columns, so it is translated outside the clause scope on purpose",
+}
+
+
+def scope_coverage(P: Program, rep: Report, rule: str, only: Optional[Set[str]] = None) -> int:
+    """In every SQLTranspiler method that opens `with self._clause_scope(ds)`, each `self.visit*(e)` whose argument derives
+    (through local assignments / loop targets) from the component-level parts of the node - the clause's children, an
+    aggregation's having_clause or grouping items - lies inside such a with-block.  Outside it, `_in_clause` /
+    `_current_dataset` are those of the enclosing context: a component name resolves as a dataset or scalar, and operators
+    whose clause form differs from their dataset form (count(), time_agg, …) are translated in the wrong form."""
+    ci = P.classes[TR]
+    n = 0
+    for name, f in sorted(ci.methods.items()):
+        text = src(f.node)
+        if "_clause_scope(" not in text or name == "_clause_scope" or (only is not None and name not in only):
+            continue
+        tainted: Set[str] = set()
+
+        def is_tainted(e: ast.AST) -> bool:
+            for x in ast.walk(e):
+                if isinstance(x, ast.Attribute) and x.attr in COMPONENT_EXPR_SOURCES:
+                    return True
+                if isinstance(x, ast.Name) and x.id in tainted:
+                    return True
+            return False
+        changed = True
+        while changed:
+            changed = False
+            for st in ast.walk(f.node):
+                tgts: List[ast.AST] = []
+                val: Optional[ast.AST] = None
+                if isinstance(st, ast.Assign):
+                    tgts, val = st.targets, st.value
+                elif isinstance(st, ast.AnnAssign) and st.value is not None:
+                    tgts, val = [st.target], st.value
+                elif isinstance(st, (ast.For, ast.comprehension)):
+                    tgts, val = [st.target], st.iter
+                elif isinstance(st, ast.NamedExpr):
+                    tgts, val = [st.target], st.value
+                if val is None or not is_tainted(val):
+                    continue
+                for t in tgts:
+                    for x in ast.walk(t):
+                        if isinstance(x, ast.Name) and x.id not in tainted:
+                            tainted.add(x.id)
+                            changed = True
+
+        def walk(node: ast.AST, inside: bool) -> None:
+            nonlocal n
+            for ch in ast.iter_child_nodes(node):
+                iw = inside
+                if isinstance(node, ast.With) and ch in node.body and any("_clause_scope" in src(it.context_expr) for it in node.items):
+                    iw = True
+                if (isinstance(ch, ast.Call) and isinstance(ch.func, ast.Attribute) and isinstance(ch.func.value, ast.Name) and ch.func.value.id == "self"
+                        and ch.func.attr.startswith("visit") and ch.args and is_tainted(ch.args[0])):
+                    arg = src(ch.args[0])
+                    why = SCOPE_EXEMPT.get((name, arg))
+                    n += 1
+                    rep.instance(rule, f"scope/{name}/{arg}", nontrivial=why is None, sample={"call": src(ch)[:80], "inside-clause-scope": iw, "exempt": why})
+                    if not iw and why is None:
+                        rep.add(fnd(rule, f"scope/{name}/{arg}", f, ch.lineno,
+                                    f"`{src(ch)[:80]}` translates a component-level expression (it derives from the node's children / having / grouping) outside every "
+                                    f"`with self._clause_scope(…)` block of {name}: names in it are not resolved against the operand's components and operators with a "
+                                    f"clause-specific form (count(), time_agg, …) are translated in their dataset form"))
+                walk(ch, iw)
+        walk(f.node, False)
+    return n
